@@ -66,3 +66,24 @@ pub struct WorldDump {
     /// World id
     pub id: u64,
 }
+
+/// Snapshot of a bump-allocated scratch arena (`EntityBuilder`, `EntityBuilderClone`,
+/// `BuiltEntityClone`, `CommandBuffer`)
+#[derive(Debug, Clone)]
+pub struct ArenaDump {
+    /// Address of the arena
+    pub base: usize,
+    /// Size of the current allocation
+    pub layout_size: usize,
+    /// Alignment of the current allocation
+    pub layout_align: usize,
+    /// Bump pointer
+    pub cursor: usize,
+    /// (type id, size, align, offset) per slot, in slot-list order
+    pub slots: Vec<(TypeId, usize, usize, usize)>,
+    /// type -> slot position index (builders only)
+    pub indices: Vec<(TypeId, usize)>,
+    /// (kind, first slot, one-past-last slot) per recorded command (command buffers only);
+    /// kind 0 = spawn, 1 = insert, 2 = remove, 3 = despawn
+    pub cmds: Vec<(u8, usize, usize)>,
+}
